@@ -84,3 +84,12 @@ plan("C08", "exploration",
      "(incl. 32-but-not-64), guard-paged blocks. Checks: every single-byte corruption of every block when vects*len <= 1600, 24 sampled otherwise. Non-trivial: len>=32, vects>min.",
      lambda tier: [S("C08", 40000 if tier == "quick" else 1500000)],
      assumptions=["reference P/Q from carry-less GF(2^8)/0x11D arithmetic", "only the vects minimum is asserted for argument rejection (length-multiple handling differs by variant and is not claimed)"])
+
+plan("C09", "exploration",
+     "gf_invert_matrix on generated n x n matrices (n<=128; random, rank-deficient by construction, zero-pivot shapes) against reference rank and product; generator formulas for all (m,k), "
+     "m<=20 (thorough 40) exhaustively plus sampled up to 256; minor enumeration over the documented safe table of gf_gen_rs_matrix and Cauchy families (complete in both tiers); "
+     "all erasure patterns for m<=15 (thorough 16); end-to-end encode/erase/invert/recover with generated patterns. Non-trivial: n>=4 or >=2 erasures.",
+     lambda tier: [S("C09", 12000 if tier == "quick" else 400000)],
+     assumptions=["reference rank/product from carry-less GF(2^8)/0x11D arithmetic",
+                  "a k x k survivor matrix of [I;P] is regular iff the minor (erased data columns x chosen parity rows) of P is regular",
+                  "documented RS exponent convention is parsed from include/erasure_code.h"])
